@@ -1,6 +1,7 @@
 INIT Init
 NEXT Next
 CONSTANTS MaxDepth = 3
+ LeafMode = "plain"
  WithPairs = TRUE
 INVARIANT Emit
 CHECK_DEADLOCK FALSE
